@@ -89,6 +89,19 @@ package contracts
 //@ extern func (c context.Context) Done() (ch <-chan struct{})
 //@   pure
 //@ extern func time.Sleep(d time.Duration)
+//@ extern func time.Since(t time.Time) (r time.Duration)
+//@   modifies clock
+//@   ensures clock >= old(clock) && r == clock - t
+// durations are nanoseconds; Seconds() as an exact real (trusted: float64 rounding ignored)
+//@ extern func (d time.Duration) Seconds() (r float64)
+//@   pure
+//@   ensures r == float64(d) / float64(1000000000)
+//@ extern func (d time.Duration) Milliseconds() (r int64)
+//@   pure
+//@   ensures r * 1000000 <= d && d < (r + 1) * 1000000 || d < 0
+//@ extern func math.Min(x float64, y float64) (r float64)
+//@   pure
+//@   ensures r == ite(x <= y, x, y)
 
 // net addresses: String/Network are pure functions of the address value (trusted)
 //@ extern func (a net.Addr) String() (s string)
@@ -160,3 +173,8 @@ package contracts
 //@ extern func (ifc *transport.Interface) AddAddress(addr net.Addr)
 //@ extern func (ifc *transport.Interface) Addrs() (a []net.Addr, err error)
 //@   pure
+
+// sync.WaitGroup: no effect on the state under contract (happens-before edges are the lockset pass's business)
+//@ extern func (wg *sync.WaitGroup) Done()
+//@ extern func (wg *sync.WaitGroup) Add(delta int)
+//@ extern func (wg *sync.WaitGroup) Wait()
